@@ -15,9 +15,9 @@ import (
 )
 
 type Decision struct {
-	Choice int  `json:"c"`
-	N      int  `json:"n"`
-	Forced bool `json:"f,omitempty"`
+	Choice int    `json:"c"`
+	N      int    `json:"n"`
+	Forced bool   `json:"f,omitempty"`
 	Kind   string `json:"k,omitempty"`
 	Val    uint64 `json:"v,omitempty"`
 }
@@ -30,19 +30,19 @@ type deferred struct {
 }
 
 type Frame struct {
-	fn      *ssa.Function
-	env     map[ssa.Value]Value
-	block   *ssa.BasicBlock
-	prev    *ssa.BasicBlock
-	pc      int
-	defers  []deferred
-	call    ssa.Value // instruction in caller to bind the result to (nil: discard)
-	mode    int       // 0 normal, 1 running defers (normal exit), 2 unwinding panic
-	ret     Value     // pending return value (when mode==1 from Return... not used by ssa)
-	isDefer bool      // this frame is a deferred call
-	onRet   func(v Value) // optional native continuation
-	nativeBarrier bool // callSync boundary
-	loopCnt map[*ssa.BasicBlock]int
+	fn            *ssa.Function
+	env           map[ssa.Value]Value
+	block         *ssa.BasicBlock
+	prev          *ssa.BasicBlock
+	pc            int
+	defers        []deferred
+	call          ssa.Value     // instruction in caller to bind the result to (nil: discard)
+	mode          int           // 0 normal, 1 running defers (normal exit), 2 unwinding panic
+	ret           Value         // pending return value (when mode==1 from Return... not used by ssa)
+	isDefer       bool          // this frame is a deferred call
+	onRet         func(v Value) // optional native continuation
+	nativeBarrier bool          // callSync boundary
+	loopCnt       map[*ssa.BasicBlock]int
 }
 
 type PanicV struct {
@@ -95,17 +95,17 @@ type Violation struct {
 }
 
 type PathResult struct {
-	Outcome     string // ok, pruned, panic, inconclusive, violation
-	Detail      string
-	Violations  []Violation
-	Asserts     int // assertion obligations discharged (unsat)
-	Reaches     map[string]bool
-	Alts        [][]Decision
-	Steps       int
-	Observed    []string
-	Inconcl     []string
-	Forks       int
-	SamplePC    string
+	Outcome    string // ok, pruned, panic, inconclusive, violation
+	Detail     string
+	Violations []Violation
+	Asserts    int // assertion obligations discharged (unsat)
+	Reaches    map[string]bool
+	Alts       [][]Decision
+	Steps      int
+	Observed   []string
+	Inconcl    []string
+	Forks      int
+	SamplePC   string
 }
 
 type Interp struct {
@@ -134,15 +134,15 @@ type Interp struct {
 	// guarded (if-converted) execution
 	wlog []map[*Cell]Value
 
-	objSeq    int
-	stubCalls map[string]int
-	ghost     map[string]Value
-	natives   map[string]interface{}
-	timers    []*TimerObj
-	nowT      *Term
-	inSync    int
-	allVars   []string
-	funcIDs   int
+	objSeq     int
+	stubCalls  map[string]int
+	ghost      map[string]Value
+	natives    map[string]interface{}
+	timers     []*TimerObj
+	nowT       *Term
+	inSync     int
+	allVars    []string
+	funcIDs    int
 	mergeDepth int
 	merges     int
 	mergeFails int
